@@ -35,11 +35,11 @@ def plan(tier, seed):
     jobs = []
     for s in range(n):
         jobs.append({"variant": "c", "part": "kernel", "shard": s, "nshards": n,
-                     "params": {"enc_len": 7 if thorough else 6, "auto_len": 6 if thorough else 5, "ext_len": 5 if thorough else 4}})
-    nr = 8 if thorough else 2
+                     "params": {"enc_len": 7 if thorough else 6, "auto_len": 6 if thorough else 5, "ext_len": 6 if thorough else 4}})
+    nr = 16 if thorough else 2
     for s in range(nr):
         jobs.append({"variant": "c" if s % 2 == 0 else "py", "part": "random", "shard": s, "nshards": nr,
-                     "params": {"n": 120000 if thorough else 15000}})
+                     "params": {"n": 400000 if thorough else 15000}})
     return jobs
 
 
